@@ -227,18 +227,36 @@ def bd_build(prob, faults):
     return out, H, cnt
 
 
-def bd_values(out, reqs):
+def _dec_index(ix):
+    """JSON-able index -> what the user writes: int | ["s", stop] (slice :stop) | ["l", [ints]] (list index)"""
+    return tuple(slice(None, x[1]) if (isinstance(x, list) and x[0] == "s") else (list(x[1]) if isinstance(x, list) else x) for x in ix)
+
+
+def _bd_val(v):
     import numpy as np
     from pymablock.series import one, zero
 
+    if v is zero:
+        return "zero"
+    if v is one:
+        return "one"
+    if isinstance(v, np.ma.MaskedArray):
+        return [_bd_val(x) for x in v.filled(zero).reshape(-1)]
+    if isinstance(v, np.ndarray) and v.dtype == object:
+        return [_bd_val(x) for x in v.reshape(-1)]
+    return np.array(v).tolist()
+
+
+def bd_values(out, reqs, cnt=None):
+    """requests (series number, index) -> list of (value | ('exn', class), callbacks before, after)"""
     res = []
-    for (s, i, j, n) in reqs:
+    for (s, ix) in reqs:
+        before = cnt.n if cnt is not None else 0
         try:
-            v = out[s][i, j, n]
+            v = _bd_val(out[s][_dec_index(ix)])
         except BaseException as e:  # noqa: BLE001
-            res.append(("exn", PG.exn_class(e)))
-            continue
-        res.append("zero" if v is zero else "one" if v is one else np.array(v).tolist())
+            v = ("exn", PG.exn_class(e))
+        res.append((v, before, cnt.n if cnt is not None else 0))
     return res
 
 
@@ -250,65 +268,99 @@ def bd_pending(out, H):
         for s in d.values():
             if any(v is PENDING for v in s._data.values()):
                 return True
+    if any(any(v is PENDING for v in o._data.values()) for o in out):
+        return True
     return any(v is PENDING for v in H._data.values())
 
 
 def bd_check(prob, reqs, plan):
-    """-> failure description or None"""
+    """-> failure description or None.  reqs: (series number, index) where the index may contain slices,
+    negative integers and lists (non-canonical user-facing requests)"""
+    reqs = [(r[0], list(r[1])) for r in reqs]
     try:
         out0, H0, c0 = bd_build(prob, {})
     except BaseException:  # noqa: BLE001
         return None
-    clean = bd_values(out0, reqs)
+    clean = [v for v, _, _ in bd_values(out0, reqs)]
     try:
         out, H, cnt = bd_build(prob, dict(plan))
     except BaseException:  # noqa: BLE001
         return None
-    first = bd_values(out, reqs)
+    first = bd_values(out, reqs, cnt)
+    for (v, before, after), (s, ix) in zip(first, reqs):
+        fired = [c for k, c in plan if before <= k < after]
+        if fired:
+            if not (isinstance(v, tuple) and v[0] == "exn"):
+                return "an injected %s during request %s did not reach the caller" % (fired[0], (s, ix))
+            if v[1] != fired[0]:
+                return "request %s: the caller received %s instead of the injected %s" % ((s, ix), v[1], fired[0])
     if bd_pending(out, H):
         return "PENDING marker left behind after an injected fault"
-    second = bd_values(out, reqs)
-    third = bd_values(out, reqs)
+    bd_values(out, reqs, cnt)
     if bd_pending(out, H):
         return "PENDING marker left behind after an injected fault"
-    if cnt.n > max(k for k, _ in plan) and not any(isinstance(o, tuple) for o in third) and third != clean:
+    third = [v for v, _, _ in bd_values(out, reqs, cnt)]
+    if cnt.n > max(k for k, _ in plan) and not any(isinstance(o, tuple) and o[1] in CLASSES for o in third) and third != clean:
         return "values after an injected fault differ from the undisturbed computation"
     return None
+
+
+def bd_requests(rng):
+    """three user-facing requests on H_tilde / U / U† (2x2 blocks, one parameter): plain, slice, negative, list"""
+    reqs = []
+    for _ in range(3):
+        s = rng.randrange(3)
+        i, j = rng.randrange(2), rng.randrange(2)
+        kind = rng.choice(["plain", "slice", "negative", "list", "slice", "list"])
+        if kind == "plain":
+            ix = [i, j, rng.randrange(4)]
+        elif kind == "slice":
+            ix = [i, j, ["s", rng.randint(2, 4)]]
+        elif kind == "negative":
+            ix = [i - 2, j - 2 if rng.random() < 0.7 else j, rng.randrange(1, 4)]
+        else:
+            ix = [i, j, ["l", sorted(rng.sample(range(4), 2))]]
+        reqs.append((s, ix))
+    return reqs
 
 
 def oracle_faults_bd(ctx):
     rng = ctx.rng
     evaluations = nontrivial = 0
     failures, samples = [], []
-    for _ in range(ctx.n(8, 40)):
+    kinds = {}
+    for _ in range(ctx.n(10, 50)):
         prob = bd_problem(rng)
-        reqs = [(rng.randrange(3), rng.randrange(2), rng.randrange(2), rng.randrange(4)) for _ in range(3)]
+        reqs = bd_requests(rng)
         out0, H0, c0 = bd_build(prob, {})
         start = c0.n
         bd_values(out0, reqs)
         total = c0.n
         points = list(range(start, total))
-        if len(points) > ctx.n(25, 150):
-            points = sorted(rng.sample(points, ctx.n(25, 150)))
+        if len(points) > ctx.n(20, 120):
+            points = sorted(rng.sample(points, ctx.n(20, 120)))
         plans = [[(k, rng.choice(CLASSES))] for k in points]
         plans += [[(a, rng.choice(CLASSES)), (a + rng.randint(1, 5), rng.choice(CLASSES))] for a in points[:: max(1, len(points) // 5)]]
+        for _, ix in reqs:
+            k = "slice" if any(isinstance(x, list) and x[0] == "s" for x in ix) else "list" if any(isinstance(x, list) for x in ix) else "negative" if any(x < 0 for x in ix) else "plain"
+            kinds[k] = kinds.get(k, 0) + 1
         for plan in plans:
             evaluations += 1
             nontrivial += 1
             what = bd_check(prob, reqs, plan)
             if what:
-                failures.append(dict(what=what, input=dict(level="block_diagonalize", problem=prob, requests=[list(r) for r in reqs], plan=[list(x) for x in plan])))
+                failures.append(dict(what=what, input=dict(level="block_diagonalize", problem=prob, requests=[[r[0], r[1]] for r in reqs], plan=[list(x) for x in plan])))
                 break
         if len(samples) < 1:
             samples.append(dict(problem=prob, requests=reqs, callbacks=total - start))
     return dict(evaluations=evaluations, nontrivial=nontrivial,
-                rule="block_diagonalize fault plans (callback index x exception class), single and double",
+                rule="block_diagonalize fault plans (callback index x exception class), single and double; user-facing requests: %s" % kinds,
                 samples=samples, failures=failures)
 
 
 def replay_input(inp):
     if inp.get("level") == "block_diagonalize":
-        return bd_check(inp["problem"], [tuple(r) for r in inp["requests"]], [tuple(x) for x in inp["plan"]])
+        return bd_check(inp["problem"], [(r[0], r[1]) for r in inp["requests"]], [tuple(x) for x in inp["plan"]])
     w = PG.world_from_json(inp["world"])
     if inp.get("shipped"):
         p = [q for q in KS.shipped_programs() if q["name"] == inp["shipped"]][0]
